@@ -105,6 +105,11 @@ def plans_for(rng, ops, phm, tier, base):
     srcw = {"from": 1, "kinds": rng.choice([["WRITE"], ["WRITE"], ["WRITE", "OPEN_W"]]), "pre": "proj/src", "act": "fail",
             "errno": rng.choice(["ENOSPC", "EIO", "EDQUOT"])}
     plans.append(("exdev_srcwrite", [{"from": 1, "kinds": ["RENAME"], "pre": "tmp/", "act": "fail", "errno": "EXDEV"}, srcw]))
+    if any(o.kind == "RENAME" and o.cls() == "lock" for o in ops):
+        # the lock's sibling file is written but may not be moved into place (immutable or foreign-owned lock): the run fails,
+        # and the sibling is a temporary file like any other
+        plans.append(("lock_rename", [{"from": 1, "kinds": ["RENAME"], "pre": "proj/Breadlog.lock", "act": "fail",
+                                       "errno": rng.choice(["EPERM", "EACCES", "EBUSY"])}]))
     uf = scen.unseen_ops_fault(rng, ops)
     if uf:
         plans.append(("unseen_ops", [uf]))
